@@ -356,8 +356,9 @@ class CHText:
         elif isinstance(other, (list, tuple)):
             for part in other:
                 self += part
-        elif isinstance(other, type(self)):
-            # (copy of the list: 'other' may be self)
+        elif isinstance(other, CHText):
+            # (any CHText: an object of a derived class accepts the base class texts;
+            # copy of the list: 'other' may be self)
             for part in other.chunks[:]:
                 self._append_chunk(part)
         else:
